@@ -740,7 +740,7 @@ class _ActionSubCommands(_SubParsersAction):
         if subcommand:
             subcommand_keys = [subcommand]
 
-        if fail_no_subcommand:
+        if fail_no_subcommand or subcommand is not None:
             if subcommand is None and not (fail_no_subcommand and action._required):  # type: ignore[attr-defined]
                 return None, None
             if subcommand not in action._name_parser_map:
